@@ -11,6 +11,7 @@ import (
 	admissionv1 "k8s.io/api/admission/v1"
 	corev1 "k8s.io/api/core/v1"
 	metav1 "k8s.io/apimachinery/pkg/apis/meta/v1"
+	apiequality "k8s.io/apimachinery/pkg/api/equality"
 	"k8s.io/apimachinery/pkg/runtime"
 	fakeclock "k8s.io/utils/clock/testing"
 	"k8s.io/utils/pointer"
@@ -321,8 +322,10 @@ type ImmutCase struct {
 	KillOld string               `json:"killOld"` // none|past|future
 }
 
-var immutableEdits = []string{"image", "parallelism", "maxAttempts", "retryDelay", "type", "optionValues", "substitutions", "uidLabel", "podLabels"}
-var conditionalEdits = []string{"startPolicy", "startAfter", "killChange"}
+var immutableEdits = []string{"image", "parallelism", "maxAttempts", "retryDelay", "type", "optionValues", "substitutions", "uidLabel", "podLabels",
+	"parallelism:remove", "parallelism:count", "maxAttempts:remove", "retryDelay:remove", "optionValues:clear", "substitutions:clear", "uidLabel:remove", "command"}
+var conditionalEdits = []string{"startPolicy", "startAfter", "killChange", "startPolicy:remove", "startAfter:remove",
+	"killChange:remove", "killChange:past", "killChange:future", "killChange:same"}
 var mutableEdits = []string{"labels", "annotations", "ttl"}
 
 func TestC17_immutable(t *testing.T) {
@@ -412,6 +415,9 @@ func runImmutCase(c ImmutCase) pbt.Result {
 			}
 			mustReject = append(mustReject, e)
 		case "maxAttempts":
+			if upd.Spec.Template.MaxAttempts == nil {
+				upd.Spec.Template.MaxAttempts = pointer.Int64(0)
+			}
 			upd.Spec.Template.MaxAttempts = pointer.Int64(*upd.Spec.Template.MaxAttempts%50 + 1)
 			mustReject = append(mustReject, e)
 		case "retryDelay":
@@ -465,11 +471,88 @@ func runImmutCase(c ImmutCase) pbt.Result {
 			if c.Started {
 				mustReject = append(mustReject, "startAfter-once-started")
 			}
-		case "killChange":
-			k := metav1.NewTime(baseTime.Add(33 * time.Second))
-			upd.Spec.KillTimestamp = &k
-			if c.KillOld == "past" {
-				mustReject = append(mustReject, "kill-once-passed")
+		case "killChange", "killChange:remove", "killChange:past", "killChange:future", "killChange:same":
+			if applied["kill"] {
+				continue
+			}
+			applied["kill"] = true
+			switch e {
+			case "killChange":
+				k := metav1.NewTime(baseTime.Add(33 * time.Second))
+				upd.Spec.KillTimestamp = &k
+			case "killChange:remove":
+				upd.Spec.KillTimestamp = nil
+			case "killChange:past":
+				k := metav1.NewTime(baseTime.Add(-time.Hour))
+				upd.Spec.KillTimestamp = &k
+			case "killChange:future":
+				k := metav1.NewTime(baseTime.Add(2 * time.Hour))
+				upd.Spec.KillTimestamp = &k
+			case "killChange:same": // the same instant, written in another zone
+				if old.Spec.KillTimestamp != nil {
+					k := metav1.NewTime(old.Spec.KillTimestamp.In(time.FixedZone("x", 3600)))
+					upd.Spec.KillTimestamp = &k
+				}
+			}
+			changed := (old.Spec.KillTimestamp == nil) != (upd.Spec.KillTimestamp == nil) ||
+				(old.Spec.KillTimestamp != nil && !old.Spec.KillTimestamp.Time.Equal(upd.Spec.KillTimestamp.Time))
+			if c.KillOld == "past" && changed {
+				mustReject = append(mustReject, "kill-once-passed:"+e)
+			}
+		case "parallelism:remove":
+			if upd.Spec.Template.Parallelism != nil && !applied["parallelism"] {
+				upd.Spec.Template.Parallelism = nil
+				mustReject = append(mustReject, e)
+			}
+		case "parallelism:count":
+			if pr := upd.Spec.Template.Parallelism; pr != nil && pr.WithCount != nil && !applied["parallelism"] {
+				upd.Spec.Template.Parallelism = pr.DeepCopy()
+				upd.Spec.Template.Parallelism.WithCount = pointer.Int64(*pr.WithCount + 1)
+				mustReject = append(mustReject, e)
+			}
+		case "maxAttempts:remove":
+			if upd.Spec.Template.MaxAttempts != nil && !applied["maxAttempts"] {
+				upd.Spec.Template.MaxAttempts = nil
+				mustReject = append(mustReject, e)
+			}
+		case "retryDelay:remove":
+			if upd.Spec.Template.RetryDelaySeconds != nil && !applied["retryDelay"] {
+				upd.Spec.Template.RetryDelaySeconds = nil
+				mustReject = append(mustReject, e)
+			}
+		case "optionValues:clear":
+			if upd.Spec.OptionValues != "" && !applied["optionValues"] {
+				upd.Spec.OptionValues = ""
+				mustReject = append(mustReject, e)
+			}
+		case "substitutions:clear":
+			if len(upd.Spec.Substitutions) > 0 && !applied["substitutions"] {
+				upd.Spec.Substitutions = nil
+				mustReject = append(mustReject, e)
+			}
+		case "uidLabel:remove":
+			if _, ok := upd.Labels[labelJobConfigUID]; ok && !applied["uidLabel"] {
+				upd.Labels = copyMap(upd.Labels)
+				delete(upd.Labels, labelJobConfigUID)
+				mustReject = append(mustReject, e)
+			}
+		case "command":
+			upd.Spec.Template.TaskTemplate.Pod.Spec.Containers[0].Command = append(append([]string{}, upd.Spec.Template.TaskTemplate.Pod.Spec.Containers[0].Command...), "extra")
+			mustReject = append(mustReject, e)
+		case "startPolicy:remove":
+			if upd.Spec.StartPolicy != nil && !applied["startPolicy"] && !applied["startAfter"] {
+				upd.Spec.StartPolicy = nil
+				if c.Started {
+					mustReject = append(mustReject, "startPolicy-once-started:remove")
+				}
+			}
+		case "startAfter:remove":
+			if upd.Spec.StartPolicy != nil && upd.Spec.StartPolicy.StartAfter != nil && !applied["startAfter"] {
+				upd.Spec.StartPolicy = upd.Spec.StartPolicy.DeepCopy()
+				upd.Spec.StartPolicy.StartAfter = nil
+				if c.Started {
+					mustReject = append(mustReject, "startAfter-once-started:remove")
+				}
 			}
 		case "labels":
 			upd.Labels = copyMap(upd.Labels)
@@ -487,6 +570,32 @@ func runImmutCase(c ImmutCase) pbt.Result {
 			upd.Spec.TTLSecondsAfterFinished = pointer.Int64(12345)
 		}
 	}
+	// The oracle does not trust the bookkeeping of the edits above (two edits of one
+	// field may cancel out): what must be rejected is decided by comparing old and new.
+	editTags := mustReject
+	mustReject = nil
+	differs := func(tag string, a, b interface{}) {
+		if !apiequality.Semantic.DeepEqual(a, b) {
+			mustReject = append(mustReject, tag)
+		}
+	}
+	differs("taskTemplate", old.Spec.Template.TaskTemplate, upd.Spec.Template.TaskTemplate)
+	differs("parallelism", old.Spec.Template.Parallelism, upd.Spec.Template.Parallelism)
+	differs("maxAttempts", old.Spec.Template.MaxAttempts, upd.Spec.Template.MaxAttempts)
+	differs("retryDelay", old.Spec.Template.RetryDelaySeconds, upd.Spec.Template.RetryDelaySeconds)
+	differs("type", old.Spec.Type, upd.Spec.Type)
+	differs("optionValues", old.Spec.OptionValues, upd.Spec.OptionValues)
+	differs("substitutions", old.Spec.Substitutions, upd.Spec.Substitutions)
+	differs("uidLabel", old.Labels[labelJobConfigUID], upd.Labels[labelJobConfigUID])
+	if c.Started {
+		differs("startPolicy-once-started", old.Spec.StartPolicy, upd.Spec.StartPolicy)
+	}
+	if c.KillOld == "past" {
+		ok, nk := old.Spec.KillTimestamp, upd.Spec.KillTimestamp
+		if (nk == nil) || !ok.Time.Equal(nk.Time) {
+			mustReject = append(mustReject, "kill-once-passed")
+		}
+	}
 	hook, err := jobvalidatingwebhook.NewWebhook(ctx)
 	if err != nil {
 		panic(err)
@@ -499,8 +608,11 @@ func runImmutCase(c ImmutCase) pbt.Result {
 		res.Violation = pbt.V("C17", "immutable/handle-error", "validating webhook returned an error: %v", err)
 		return res
 	}
-	for _, e := range mustReject {
+	for _, e := range editTags {
 		res.Labels = append(res.Labels, "edit:"+e)
+	}
+	for _, e := range mustReject {
+		res.Labels = append(res.Labels, "differs:"+e)
 	}
 	if c.Started {
 		res.Labels = append(res.Labels, "started")
